@@ -54,6 +54,13 @@ type Explorer struct {
 	Shard    int // this worker's index
 	NShards  int // number of workers (0 or 1: no sharding)
 	MaxFound int // stop collecting after this many violating executions (default 20)
+	// Prune cuts the expansion of an execution at the first scheduling decision whose global
+	// state (thread histories + harness StateKey + deviations spent) was already expanded:
+	// equal states have equal futures. Sound only if the scenario's StateKey covers every
+	// shared location; harnesses cross-check pruned against unpruned runs.
+	Prune  bool
+	pruned map[uint64]struct{}
+	Cut    int64 // expansions cut by pruning
 
 	stats  Stats
 	states map[uint64]struct{}
@@ -64,7 +71,7 @@ type Explorer struct {
 
 // RunOnce executes the scenario with the given choice prefix.
 func RunOnce(sc *Scenario, prefix []int, trace bool, states map[uint64]struct{}) *Exec {
-	x := &Exec{prefix: prefix, Trace: trace, parked: make(chan struct{}), MaxSteps: sc.MaxSteps, AllowKill: sc.AllowKill, states: states}
+	x := &Exec{prefix: prefix, Trace: trace, parked: make(chan struct{}), MaxSteps: sc.MaxSteps, AllowKill: sc.AllowKill, states: states, KeyStates: states != nil}
 	if x.MaxSteps == 0 {
 		x.MaxSteps = 20000
 	}
@@ -150,8 +157,17 @@ func (e *Explorer) expand(x *Exec, from int, depth, acc int) {
 		base = base.add(x.decisions[i].costs[x.Choices[i]])
 	}
 	idx := 0
+	spent := base
 	for i := from; i < len(x.decisions); i++ {
 		d := x.decisions[i]
+		if e.Prune && d.key != 0 {
+			k := d.key*1099511628211 ^ uint64(spent.p)<<40 ^ uint64(spent.k)<<48 ^ uint64(spent.f)<<56
+			if _, dup := e.pruned[k]; dup {
+				e.Cut++
+				break // everything reachable from here was expanded from an equal state
+			}
+			e.pruned[k] = struct{}{}
+		}
 		for alt := 1; alt < d.n; alt++ {
 			if !base.add(d.costs[alt]).within(e.Bounds) {
 				continue
@@ -181,6 +197,7 @@ func (e *Explorer) expand(x *Exec, from int, depth, acc int) {
 func (e *Explorer) Explore() Stats {
 	e.stats = Stats{Scenario: e.Sc.Name, Bounds: e.Bounds, Outcomes: map[uint64]int64{}}
 	e.states = map[uint64]struct{}{}
+	e.pruned = map[uint64]struct{}{}
 	e.sigSeen = map[string]bool{}
 	if e.MaxFound == 0 {
 		e.MaxFound = 20
